@@ -91,6 +91,23 @@ class _F(Folder):
     opaque_calls = False
 
 
+_MC_CACHE = {}
+
+
+def module_consts(mod) -> dict:
+    """Foldable module-level assignments (NAME = constant expression) of a repo module."""
+    key = id(mod)
+    if key not in _MC_CACHE:
+        out = {}
+        for name, val in getattr(mod, "assigns", {}).items():
+            try:
+                out[name] = Folder(dict(out)).fold(val)
+            except (NotConstant, Exception):
+                pass
+        _MC_CACHE[key] = out
+    return _MC_CACHE[key]
+
+
 def fold_env(expr, env, opaque_calls=False):
     f = _F(env)
     f.opaque_calls = opaque_calls
@@ -105,6 +122,12 @@ def run_paths(stmts, env, loop_iters=(0, 1), stop_at=None, opaque_calls=True, ma
     pe = PathEnum(loop_iters, exc_edges=False)
     out = []
     seen_prefix = set()
+    # module-level constants of the analysed function's module are visible (locals/params shadow them)
+    fobj = next((getattr(s_, "_func", None) for s_ in stmts if getattr(s_, "_func", None) is not None), None)
+    if fobj is not None:
+        base = module_consts(fobj.module)
+        if base:
+            env = {**{k: v for k, v in base.items() if k not in env}, **env}
     for p in pe.block(stmts):
         e = dict(env)
         feasible = True
